@@ -271,6 +271,54 @@ def ws_class(tree):
     return sorted(set(chars))
 
 
+GETC_POS = ("[Assign(targets=[Tuple(elts=[Name(id='line', ctx=Store()), Name(id='col', ctx=Store())], ctx=Store())], "
+            "value=Attribute(value=Name(id='self', ctx=Load()), attr='_pos', ctx=Load())), "
+            "AugAssign(target=Name(id='col', ctx=Store()), op=Add(), value=Constant(value=%s)), "
+            "If(test=Compare(left=Name(id='c', ctx=Load()), ops=[Eq()], comparators=[Constant(value=%s)]), "
+            "body=[AugAssign(target=Name(id='line', ctx=Store()), op=Add(), value=Constant(value=%s)), "
+            "Assign(targets=[Name(id='col', ctx=Store())], value=Constant(value=%s))], orelse=[]), "
+            "Assign(targets=[Attribute(value=Name(id='self', ctx=Load()), attr='_pos', ctx=Store())], "
+            "value=Tuple(elts=[Name(id='line', ctx=Load()), Name(id='col', ctx=Load())], ctx=Load()))]")
+FILL_POS = ["Assign(targets=[Tuple(elts=[Attribute(value=Name(id='model', ctx=Load()), attr='start_line', ctx=Store()), "
+            "Attribute(value=Name(id='model', ctx=Load()), attr='start_column', ctx=Store())], ctx=Store())], "
+            "value=Name(id='start', ctx=Load()))",
+            "Assign(targets=[Tuple(elts=[Attribute(value=Name(id='model', ctx=Load()), attr='end_line', ctx=Store()), "
+            "Attribute(value=Name(id='model', ctx=Load()), attr='end_column', ctx=Store())], ctx=Store())], "
+            "value=Attribute(value=Name(id='self', ctx=Load()), attr='pos', ctx=Load()))",
+            "Return(value=Call(func=Attribute(value=Name(id='model', ctx=Load()), attr='replace', ctx=Load()), "
+            "args=[Name(id='model', ctx=Load())], keywords=[]))"]
+
+
+def getc_rule(rtree, htree):
+    """Reader.getc's line/column bookkeeping, Reader._set_source's initial position, HyReader.fill_pos"""
+    g = top_func(rtree, "getc", RR, cls="Reader")
+    ifs = [st for st in body_without_docstring(g) if isinstance(st, ast.If) and ast.dump(st.test) == "Name(id='c', ctx=Load())"]
+    if len(ifs) != 1 or len(ifs[0].body) < 4 or ifs[0].orelse:
+        raise ShapeChanged("%s:%d: getc: no single `if c:` block with the position update" % (RR, g.lineno))
+    b = ifs[0].body[:4]
+    try:
+        k1 = b[1].value.value
+        nl = b[2].test.comparators[0].value
+        k2 = b[2].body[0].value.value
+        k3 = b[2].body[1].value.value
+    except Exception:
+        raise ShapeChanged("%s:%d: getc: position update changed shape" % (RR, g.lineno))
+    if "[" + ", ".join(ast.dump(x) for x in b) + "]" != GETC_POS % (repr(k1), repr(nl), repr(k2), repr(k3)):
+        raise ShapeChanged("%s:%d: getc: position update changed shape" % (RR, g.lineno))
+    if not (isinstance(nl, str) and len(nl) == 1 and all(isinstance(k, int) and k >= 0 for k in (k1, k2, k3))):
+        raise ShapeChanged("%s:%d: getc: unexpected constants" % (RR, g.lineno))
+    ss = top_func(rtree, "_set_source", RR, cls="Reader")
+    init = [x.value for x in ast.walk(ss) if isinstance(x, ast.Assign) and len(x.targets) == 1
+            and ast.dump(x.targets[0]) == "Attribute(value=Name(id='self', ctx=Load()), attr='_pos', ctx=Store())"]
+    if not (len(init) == 1 and isinstance(init[0], ast.Tuple) and len(init[0].elts) == 2
+            and all(isinstance(e, ast.Constant) and isinstance(e.value, int) and e.value >= 0 for e in init[0].elts)):
+        raise ShapeChanged("%s:%d: _set_source: initial position" % (RR, ss.lineno))
+    fp = body_without_docstring(top_func(htree, "fill_pos", HR, cls="HyReader"))
+    if [ast.dump(x) for x in fp] != FILL_POS:
+        raise ShapeChanged("%s: fill_pos changed shape" % HR)
+    return k1, ord(nl), k2, k3, init[0].elts[0].value, init[0].elts[1].value
+
+
 def string_constants_of(fn):
     return string_constants(body_without_docstring(fn))
 
@@ -363,4 +411,9 @@ def translate(repo):
     out += "Definition escape_whitelist : text := %s.\n" % coq_text(wl[0])
     out += "Definition escape_whitelist_str : text := %s.\n" % coq_text(extra)
     out += "Definition none_name : text := %s.\n" % coq_text("None")
+    k1, nl, k2, k3, l0, c0 = getc_rule(rtree, htree)
+    out += "(* Reader.getc: col += %d; at the newline character line += %d and col = %d; Reader._set_source starts at (%d, %d) *)\n" % (k1, k2, k3, l0, c0)
+    out += "Definition getc_col_step : nat := %d%%nat.\nDefinition getc_newline : N := %d%%N.\n" % (k1, nl)
+    out += "Definition getc_line_step : nat := %d%%nat.\nDefinition getc_col_reset : nat := %d%%nat.\n" % (k2, k3)
+    out += "Definition pos_init : nat * nat := (%d%%nat, %d%%nat).\n" % (l0, c0)
     return {"Gen/ReaderTables.v": out}
